@@ -748,6 +748,16 @@ def symval_method(ex, recv, name, args, kwargs, node):
     if name == 'isdigit':
         return SymVal('bool', z3.InRe(s, z3.Plus(z3.Range('0', '9'))))
     if name == 'split':
+        ms = kwargs.get('maxsplit', args[1] if len(args) > 1 else None)
+        if args and isinstance(args[0], str) and args[0] and ms == 1:
+            # exact: [s] when the separator does not occur, else [before first separator, rest]
+            sep = z3.StringVal(args[0])
+            if ex.branch(z3.Not(z3.Contains(recv.t, sep)), 'split: separator absent'):
+                return [recv]
+            a = z3.String(ex.fresh_name('split.head'))
+            b = z3.String(ex.fresh_name('split.tail'))
+            ex.assume(z3.And(recv.t == z3.Concat(a, sep, b), z3.Not(z3.Contains(a, sep))))
+            return [SymVal('str', a), SymVal('str', b)]
         # assumed contract of str.split: a non-empty list of strings (separator / maxsplit only bound the length from above)
         seq = SymSeq(ex.fresh_name('split'), lambda e, l: SymVal('str', z3.String(e.fresh_name(l))), prov='fresh')
         seq.nonempty = True
